@@ -460,7 +460,39 @@ func (s *scen) enabled(withEnv bool) []action {
 	return as
 }
 
+// possible reports whether the real code's observed state allows the action (scripted scenarios assume a
+// behaviour; a changed implementation may not get there: that is an output, not a crash).
+func (s *scen) possible(a action) bool {
+	switch a.kind {
+	case "get":
+		return s.rstate[a.a] == "idle"
+	case "check":
+		return s.rstate[a.a] == "idle" || s.rstate[a.a] == "missed"
+	case "join":
+		_, ok := s.parked[a.a]
+		return ok
+	case "recheck":
+		f := s.leaders[a.a]
+		return f != nil && f.state == "created"
+	case "store":
+		f := s.leaders[a.a]
+		return f != nil && f.state == "loading" && s.loaders[a.a] != nil
+	case "finish":
+		f := s.leaders[a.a]
+		return f != nil && f.state == "done"
+	}
+	return true
+}
+
 func (s *scen) do(a action) {
+	if !s.possible(a) {
+		op := fmt.Sprintf("%s %d", a.kind, a.a)
+		if a.kind == "store" {
+			op = fmt.Sprintf("store %d %d", a.a, a.b)
+		}
+		s.emit("A:not-enabled", op, "not-enabled")
+		return
+	}
 	switch a.kind {
 	case "get":
 		s.opGet(a.a)
